@@ -128,9 +128,9 @@ def tok6_twin(s: str) -> int:
 LAYOUTS = {
     'top2_lab1': ['DATA i0, i1', 'lab1:', 'DATA i2', '@OPS@'],
     'after_code': ['@OPS@', 'END', 'DATA i0', 'lab1:', 'DATA i1, i2'],
-    'between': ['lab0:', 'DATA i0', 'PRINT "x"', 'DATA i1', 'lab1:',
+    'between': ['lab0:', 'DATA i0', 'PRINT "#"', 'DATA i1', 'lab1:',
                 'DATA i2', '@OPS@'],
-    'lab_no_data': ['DATA i0', 'lab1:', 'PRINT "x"', 'lab2:', 'DATA i1, i2',
+    'lab_no_data': ['DATA i0', 'lab1:', 'PRINT "#"', 'lab2:', 'DATA i1, i2',
                     '@OPS@'],
     'two_labels': ['DATA i0', 'lab1:', 'lab2:', 'DATA i1', 'DATA i2',
                    '@OPS@'],
@@ -192,7 +192,7 @@ def _numeric_value(text):
     """Reference: value of a DATA text read into an integral variable, or
     None when the text is not a number.  Grammar used: optional '-', digits
     with at most one '.', at least one digit.  (Alphabet of symbolic items:
-    1 2 - . a)"""
+    1 2 - . x)"""
     n = len(text)
     i = 0
     neg = False
@@ -276,7 +276,7 @@ def cursor(layout, seq, cfg, items, decimal_ok=True):
             exp.append(v)
     # compare
     got = [e for e in impl.trace if e[0] == 'terminal' and e[1] == 'print'
-           and e[2] != 'x\r\n']
+           and e[2] != '#\r\n']
     if len(got) != len(exp):
         return 0
     for e, x in zip(got, exp):
